@@ -80,9 +80,10 @@ type Sched struct {
 	mainDb       *boltz.DbImpl
 	writerHeld   bool
 	readers      int
-	lockPending  bool
+	lockPending  int // callers inside reloadLock.Lock() that do not hold it yet (several restores may queue up)
 	lockHeld     bool
 	batchWaiters int // tasks blocked inside db.Batch whose body has not started
+	blockedNeed  map[string]Need
 
 	seq uint64 // global event sequence number
 
@@ -93,7 +94,7 @@ type Sched struct {
 	// callbacks into the run
 	onQuiescent    func()             // scheduler goroutine, everything parked
 	onRw           func(ev string)    // main db writer lock notifications: acquired | committed | released
-	onRestore      func(point string) // reload.lock.after / reload.unlock.after on the main db
+	onRestore      func(point, task string) // reload.lock.after / reload.unlock.after on the main db
 	onSeam         func(site string, key []byte) error
 	Windows        bool // conc profile: sometimes release a set of tasks at once, for one step each (race windows)
 	YieldAtRUnlock bool // snap profile: reload.runlock.after is a scheduling point
@@ -273,17 +274,17 @@ func (s *Sched) enabledLocked(n Need) bool {
 	case NeedNone:
 		return true
 	case NeedWriter:
-		return !s.writerHeld && !s.lockPending && !s.lockHeld
+		return !s.writerHeld && s.lockPending == 0 && !s.lockHeld
 	case NeedRLock:
-		return !s.lockPending && !s.lockHeld
+		return s.lockPending == 0 && !s.lockHeld
 	case NeedNoReader:
-		return s.readers == 0
+		return s.readers == 0 && !s.lockHeld // (another restore may hold the lock)
 	case NeedBoltWriter:
 		return !s.writerHeld
 	case NeedNever:
 		return false
 	case NeedExclusive:
-		return !s.writerHeld && s.readers == 0 && !s.lockPending && !s.lockHeld && s.batchWaiters == 0
+		return !s.writerHeld && s.readers == 0 && s.lockPending == 0 && !s.lockHeld && s.batchWaiters == 0
 	}
 	return false
 }
@@ -475,7 +476,7 @@ func (s *Sched) SimHook(point string, db *boltz.DbImpl) {
 	}
 	switch point {
 	case "reload.rlock.before":
-		if s.lockPending || s.lockHeld {
+		if s.lockPending > 0 || s.lockHeld {
 			s.NestedRLockP++
 			name, ok := s.goids[goid()]
 			s.mu.Unlock()
@@ -483,7 +484,13 @@ func (s *Sched) SimHook(point string, db *boltz.DbImpl) {
 				s.HarnessError("RLock would block on a goroutine that is not a task")
 				panic(abortSig{})
 			}
-			s.park(name, "blocked.rlock", NeedRLock)
+			need := NeedRLock
+			s.mu.Lock()
+			if h, ok := s.blockedNeed[name]; ok {
+				need = h
+			}
+			s.mu.Unlock()
+			s.park(name, "blocked.rlock", need)
 			return
 		}
 	case "reload.rlock.after":
@@ -511,8 +518,8 @@ func (s *Sched) SimHook(point string, db *boltz.DbImpl) {
 			return
 		}
 	case "reload.lock.before":
-		s.lockPending = true
-		if s.readers > 0 {
+		s.lockPending++
+		if s.readers > 0 || s.lockHeld {
 			s.RestoreWaited++
 			name, ok := s.goids[goid()]
 			s.mu.Unlock()
@@ -524,13 +531,13 @@ func (s *Sched) SimHook(point string, db *boltz.DbImpl) {
 			return
 		}
 	case "reload.lock.after":
-		s.lockPending = false
+		s.lockPending--
 		s.lockHeld = true
 		cb := s.onRestore
 		name, isTask := s.goids[goid()]
 		s.mu.Unlock()
 		if cb != nil {
-			cb(point)
+			cb(point, name)
 		}
 		if isTask {
 			// a scheduling point while the write lock is held: tasks that need no lock may run
@@ -543,7 +550,7 @@ func (s *Sched) SimHook(point string, db *boltz.DbImpl) {
 		name, isTask := s.goids[goid()]
 		s.mu.Unlock()
 		if cb != nil {
-			cb(point)
+			cb(point, name)
 		}
 		if isTask {
 			// a scheduling point right after the unlock: whatever the restore still does afterwards runs
@@ -598,6 +605,16 @@ func (s *Sched) SeamHook(site string, key []byte) error {
 	return nil
 }
 
+// HintBlockedNeed: what task `name` needs in order to go on if its next reload-lock acquisition has to wait.
+func (s *Sched) HintBlockedNeed(name string, n Need) {
+	s.mu.Lock()
+	if s.blockedNeed == nil {
+		s.blockedNeed = map[string]Need{}
+	}
+	s.blockedNeed[name] = n
+	s.mu.Unlock()
+}
+
 func (s *Sched) BatchWait(delta int) {
 	s.mu.Lock()
 	s.batchWaiters += delta
@@ -635,7 +652,7 @@ func (s *Sched) ReloadHeld() bool {
 func (s *Sched) ReloadBusy() bool {
 	s.mu.Lock()
 	defer s.mu.Unlock()
-	return s.lockPending || s.lockHeld
+	return s.lockPending > 0 || s.lockHeld
 }
 
 func (s *Sched) Interleaving() (uint64, bool) {
